@@ -1,19 +1,25 @@
 """Facts for C12 (record equality and hashing) -> coq/gen/Gen_equality.v.
 
-Read from flow/record/base.py with `ast`/`inspect` (the SHAPE of small methods is the fact) and from the imported
-module (constants, which class defines which special method):
+Every boolean fact is derived from OBSERVED BEHAVIOUR of flow/record/base.py on purpose-built probes (`observe`):
 
-* Record.__eq__      : the isinstance guard; the comparison of self._descriptors() with other._descriptors() (and what
-                       Record/GroupedRecord._descriptors and RecordDescriptor.__eq__ are); which of the two _pack calls
-                       gets IGNORE_FIELDS_FOR_COMPARISON
-* Record._pack       : the `continue` for an excluded field comes before `values.append`
-* Record.__hash__    : passes the ignore set to _pack; freezes through a helper that recurses into list/tuple/dict
-                       and turns a dict into a frozenset
-* GroupedRecord._pack: has an excluded_fields parameter and forwards it to every member
-* ignore_fields_for_comparison: restores the saved value in a `finally`
-* RESERVED_FIELDS, the environment variable name.
+* what Record.__eq__ hands to self._pack / other._pack (Record._pack / GroupedRecord._pack are wrapped for the time of
+  the probe and log their arguments), that it answers False for a non-record that quacks like one, that records of two
+  different descriptors with the same identifier and the same packed values are unequal (plain and grouped), what
+  RecordDescriptor equality is on constructed pairs;
+* what Record.__hash__ hands to _pack and what it hands to hash() (the module-level name `hash` is shadowed for the time
+  of the probe): no list / dict at any depth, dicts as frozensets; that nested containers and dicts with keys of
+  different types hash, that dict key order does not matter;
+* Record._pack(excluded_fields=...) leaves exactly the excluded slots out, keeping the order;
+* GroupedRecord._pack accepts excluded_fields and returns (name, tuple of the members' _pack with the same arguments);
+* ignore_fields_for_comparison puts the previous configuration back on a normal exit, on an exit by exception, nested,
+  with an empty and a non-empty prior configuration;
+* which classes define __eq__/__ne__/__hash__, RESERVED_FIELDS, the environment variable (observed in a fresh
+  interpreter when the source spelling is not recognised).
 
-Fail closed: a shape the recognisers below do not know raises Unsupported.
+The `ast` recognisers are CROSS-CHECKS: they follow a call of a module-level helper one level and resolve module
+constants; when a recogniser understands the source and CONTRADICTS the observation the generator fails closed
+(Unsupported); when it does not understand the spelling the observation is used and a note is written into the
+generated file.  A probe that itself cannot be carried out (exception in the probe machinery) fails closed.
 """
 from __future__ import annotations
 
@@ -54,11 +60,36 @@ def _subst(node, env):
             if isinstance(n.ctx, ast.Load) and n.id in env:
                 return env[n.id]
             return n
-    return T().visit(node)
+    import copy
+    return T().visit(copy.deepcopy(node))
+
+
+BASE = None     # the module under inspection (for following helpers / resolving constants)
+
+
+def _inline_helper(node):
+    """f(x) where f is a module-level function `def f(p): [doc] return <expr>` -> <expr>[p := x]  (one level)"""
+    if not (isinstance(node, ast.Call) and isinstance(node.func, ast.Name) and len(node.args) == 1 and not node.keywords and BASE is not None):
+        return None
+    fn = getattr(BASE, node.func.id, None)
+    if not inspect.isfunction(fn) or getattr(fn, "__module__", None) != BASE.__name__:
+        return None
+    try:
+        fd = _fdef(fn)
+    except Exception:  # noqa
+        return None
+    b = _body(fd)
+    if len(fd.args.args) != 1 or len(b) != 1 or not isinstance(b[0], ast.Return) or b[0].value is None:
+        return None
+    return _subst(b[0].value, {fd.args.args[0].arg: node.args[0]})
 
 
 def _pack_call(node, recv=None):
-    """<recv>._pack(...) -> (receiver name, passes the ignore set) else None"""
+    """<recv>._pack(...) -> (receiver name, passes the ignore set) else None; a module-level helper that returns such a
+    call on its parameter is followed one level"""
+    inl = _inline_helper(node)
+    if inl is not None:
+        node = inl
     if not (isinstance(node, ast.Call) and isinstance(node.func, ast.Attribute) and node.func.attr == "_pack"
             and isinstance(node.func.value, ast.Name)):
         return None
@@ -241,6 +272,9 @@ def pack_facts(base):
             return False
         return found
 
+    # the list(s) the loop fills: names bound to [] before the loop
+    list_names = {st.targets[0].id for st in _body(node) if isinstance(st, ast.Assign) and len(st.targets) == 1
+                  and _name(st.targets[0]) and isinstance(st.value, ast.List) and not st.value.elts}
     skip_at = None
     append_at = None
     for i, st in enumerate(loop.body):
@@ -251,11 +285,11 @@ def pack_facts(base):
                 skip_at = i
         for sub in ast.walk(st):
             if (isinstance(sub, ast.Call) and isinstance(sub.func, ast.Attribute) and sub.func.attr in ("append", "extend", "insert")
-                    and _name(sub.func.value, "values")):
+                    and _name(sub.func.value) and sub.func.value.id in list_names):
                 if append_at is None:
                     append_at = i
     if append_at is None:
-        raise Unsupported("Record._pack: no values.append in the loop")
+        raise Unsupported("Record._pack: no <list>.append in the loop")
     if skip_at is None:
         # is the test there at all (nested somewhere)?  then we do not understand the shape
         for sub in ast.walk(loop):
@@ -410,11 +444,19 @@ def grouped_facts(base):
             ok = True
         forwards = forwards and ok
     body = _body(node)
+    env = {}
+    while body and isinstance(body[0], ast.Assign) and len(body[0].targets) == 1 and _name(body[0].targets[0]):
+        env[body[0].targets[0].id] = _subst(body[0].value, env)
+        body = body[1:]
     if not (len(body) == 1 and isinstance(body[0], ast.Return) and isinstance(body[0].value, ast.Tuple) and len(body[0].value.elts) == 2):
         raise Unsupported("GroupedRecord._pack does not return a pair")
-    first, second = body[0].value.elts
+    first, second = _subst(body[0].value, env).elts
+    calls = [c for c in ast.walk(second) if isinstance(c, ast.Call) and isinstance(c.func, ast.Attribute) and c.func.attr == "_pack"]
     if not (isinstance(first, ast.Attribute) and first.attr == "name" and _name(first.value, "self")):
         raise Unsupported("GroupedRecord._pack: first component is not self.name")
+    if isinstance(second, ast.Call) and _name(second.func, "tuple") and len(second.args) == 1 and isinstance(second.args[0], ast.Call) \
+            and _name(second.args[0].func, "list") and len(second.args[0].args) == 1:
+        second = ast.Call(func=second.func, args=second.args[0].args, keywords=[])
     if not (isinstance(second, ast.Call) and _name(second.func, "tuple") and len(second.args) == 1
             and isinstance(second.args[0], (ast.GeneratorExp, ast.ListComp)) and len(second.args[0].generators) == 1
             and not second.args[0].generators[0].ifs and isinstance(second.args[0].generators[0].iter, ast.Attribute)
@@ -460,9 +502,18 @@ def ctx_facts(base):
     # the setter really assigns the global
     sn = _fdef(base.set_ignored_fields_for_comparison)
     sb = _body(sn)
+    env = {}
+    rest = []
+    for st in sb:
+        if (isinstance(st, ast.Assign) and len(st.targets) == 1 and _name(st.targets[0]) and st.targets[0].id != IGN):
+            env[st.targets[0].id] = _subst(st.value, env)
+        else:
+            rest.append(st)
+    sb = rest
+    val = _subst(sb[1].value, env) if len(sb) == 2 and isinstance(sb[1], ast.Assign) else None
     ok = (len(sb) == 2 and isinstance(sb[0], ast.Global) and sb[0].names == [IGN] and isinstance(sb[1], ast.Assign)
-          and len(sb[1].targets) == 1 and _name(sb[1].targets[0], IGN) and isinstance(sb[1].value, ast.Call)
-          and _name(sb[1].value.func, "set") and len(sb[1].value.args) == 1 and _name(sb[1].value.args[0], sn.args.args[0].arg))
+          and len(sb[1].targets) == 1 and _name(sb[1].targets[0], IGN) and isinstance(val, ast.Call)
+          and _name(val.func, "set") and len(val.args) == 1 and _name(val.args[0], sn.args.args[0].arg))
     if not ok:
         raise Unsupported("set_ignored_fields_for_comparison is not `global X; X = set(arg)`")
     return in_finally
@@ -474,12 +525,32 @@ def env_var(base):
     for st in tree.body:
         if isinstance(st, ast.If) and any(isinstance(s, ast.Assign) and any(_name(t, IGN) for t in s.targets) for s in st.body):
             for sub in ast.walk(st.test):
-                if (isinstance(sub, ast.Call) and isinstance(sub.func, ast.Attribute) and sub.func.attr in ("get", "getenv")
-                        and sub.args and isinstance(sub.args[0], ast.Constant) and isinstance(sub.args[0].value, str)):
-                    names.append(sub.args[0].value)
+                if (isinstance(sub, ast.Call) and isinstance(sub.func, ast.Attribute) and sub.func.attr in ("get", "getenv") and sub.args):
+                    a = sub.args[0]
+                    if isinstance(a, ast.Constant) and isinstance(a.value, str):
+                        names.append(a.value)
+                    elif _name(a) and isinstance(getattr(base, a.id, None), str):
+                        names.append(getattr(base, a.id))       # a module constant
     if len(names) != 1:
         raise Unsupported("the environment variable that initialises the ignore set was not found")
     return names[0]
+
+
+def env_var_observed(candidate="FLOW_RECORD_IGNORE"):
+    """a fresh interpreter started with <candidate>=p,q has the ignore set {p, q}"""
+    import os
+    import subprocess
+    import sys
+    env = dict(os.environ)
+    env[candidate] = "vf_p,vf_q"
+    try:
+        out = subprocess.run([sys.executable, "-c", "import flow.record.base as b; print(sorted(b.IGNORE_FIELDS_FOR_COMPARISON))"],
+                             env=env, capture_output=True, text=True, timeout=60).stdout
+    except Exception as e:  # noqa
+        raise Unsupported("could not observe the environment variable: %r" % (e,))
+    if "['vf_p', 'vf_q']" in out:
+        return candidate
+    raise Unsupported("the environment variable %s does not initialise the ignore set (observed %r)" % (candidate, out.strip()[:80]))
 
 
 def special_methods(base):
@@ -494,18 +565,357 @@ def special_methods(base):
     return ne_default, hashable
 
 
+# ------------------------------------------------------------------------------------------------------
+# observation: the facts as the running code shows them
+
+class _Duck:
+    """not a Record, but offers what Record.__eq__ asks of its operand"""
+
+    def __init__(self, rec):
+        self._rec = rec
+
+    def _pack(self, *a, **k):
+        return self._rec._pack(*a, **k)
+
+    def _descriptors(self):
+        return self._rec._descriptors()
+
+    def __getattr__(self, name):
+        return getattr(self._rec, name)
+
+
+def _has_container(v):
+    if isinstance(v, (list, dict)):
+        return True
+    if isinstance(v, (tuple, frozenset)):
+        return any(_has_container(x) for x in v)
+    return False
+
+
+def _has_ordered_dict_items(frozen, original):
+    """was some dict of `original` turned into something else than a frozenset in `frozen`? (parallel walk)"""
+    if isinstance(original, dict):
+        return not isinstance(frozen, frozenset)
+    if isinstance(original, (list, tuple)) and isinstance(frozen, tuple) and len(frozen) == len(original):
+        return any(_has_ordered_dict_items(f, o) for f, o in zip(frozen, original))
+    return False
+
+
+def observe(base):
+    import datetime as pydt
+
+    from flow.record import GroupedRecord, RecordDescriptor
+    T0 = pydt.datetime(2020, 1, 2, 3, 4, 5, tzinfo=pydt.timezone.utc)
+    T1 = pydt.datetime(2021, 1, 2, 3, 4, 5, tzinfo=pydt.timezone.utc)
+    obs = {}
+    saved_ignore = base.IGNORE_FIELDS_FOR_COMPARISON
+    saved_hash = base.__dict__.get("hash", None)
+    had_hash = "hash" in base.__dict__
+    orig_rpack, orig_gpack = base.Record.__dict__.get("_pack"), base.GroupedRecord.__dict__.get("_pack")
+    log = []
+    hashed = []
+
+    def wrap(orig):
+        def _pack(self, *a, **k):
+            ex = k["excluded_fields"] if "excluded_fields" in k else (a[1] if len(a) > 1 else None)
+            log.append((id(self), None if ex is None else set(ex)))
+            return orig(self, *a, **k)
+        return _pack
+
+    def logging_hash(x):
+        hashed.append(x)
+        return hash(x)
+
+    def calls_of(obj):
+        return [ex for i, ex in log if i == id(obj)]
+
+    try:
+        D = RecordDescriptor("vf/c12probe", [("string", "a"), ("varint", "b"), ("string[]", "l"), ("command", "c"),
+                                             ("dictlist", "d"), ("stringlist", "s"), ("record", "r"), ("command[]", "cs")])
+        I = RecordDescriptor("vf/c12inner", [("string", "a"), ("varint[]", "n")])
+
+        def mk(a="x", b=1, gen=T0, d=None, inner_a="i"):
+            return D(a=a, b=b, l=["p", "q"], c="ls -l /tmp", d=d if d is not None else [{"k": 1, "m": [1, {"z": 2}]}],
+                     s=[[1, [2, 3]], {"u": [4]}], r=I(a=inner_a, n=[1, 2], _generated=T0), cs=["a b", "c d e"],
+                     _source="s", _classification=None, _generated=gen)
+        # ---------------- what __eq__ and __hash__ hand to _pack
+        if orig_rpack is None:
+            raise Unsupported("Record defines no _pack")
+        base.Record._pack = wrap(orig_rpack)
+        if orig_gpack is not None:
+            base.GroupedRecord._pack = wrap(orig_gpack)
+        probe_ign = {"a", "_generated"}
+        base.IGNORE_FIELDS_FOR_COMPARISON = set(probe_ign)
+        x, y = mk(a="x", gen=T0), mk(a="y", gen=T1)
+        del log[:]
+        r_eq = x == y
+        obs["eq_ign_left"] = bool(calls_of(x)) and all(c == probe_ign for c in calls_of(x))
+        obs["eq_ign_right"] = bool(calls_of(y)) and all(c == probe_ign for c in calls_of(y))
+        if not calls_of(x) or not calls_of(y):
+            raise Unsupported("probe: x == y did not call _pack on both operands")
+        if (obs["eq_ign_left"] and obs["eq_ign_right"]) != (r_eq is True):
+            raise Unsupported("probe: what __eq__ hands to _pack (%r, %r) does not explain its answer %r for records that differ in ignored fields only"
+                              % (calls_of(x), calls_of(y), r_eq))
+        if (x == mk(a="x", b=2, gen=T0)) is not False:
+            obs["eq_ign_left"] = obs["eq_ign_right"] = False   # a kept field is not compared: not the contract at all
+        del log[:]
+        base.hash = logging_hash
+        del hashed[:]
+        try:
+            hx_, hy_ = hash(x), hash(y)
+            obs["hash_raised"] = None
+        except Exception as e:  # noqa
+            hx_ = hy_ = None
+            obs["hash_raised"] = "%s: %s" % (type(e).__name__, e)
+        cx = calls_of(x)
+        obs["hash_ign"] = bool(cx) and all(c == probe_ign for c in cx)
+        if hx_ is not None and obs["hash_ign"] != (hx_ == hy_):
+            raise Unsupported("probe: what __hash__ hands to _pack (%r) does not explain hash equality %r of records that differ in ignored fields only"
+                              % (cx, hx_ == hy_))
+        base.IGNORE_FIELDS_FOR_COMPARISON = set()
+        # ---------------- what is handed to hash(): frozen at every depth, dicts unordered
+        probes = [mk(), mk(d=[{1: "one", "two": {None: [1, {b"k": 2, "k": 3}]}}]),
+                  RecordDescriptor("vf/c12cmd", [("command", "c"), ("string", "a")])(c="ls -l", a="no list at top level", _generated=T0),
+                  GroupedRecord("vf/g", [mk(), I(a="m", n=[3], _generated=T0)])]
+        deep = True
+        unordered = True
+        why = []
+        for pr in probes:
+            del hashed[:]
+            try:
+                hash(pr)
+            except Exception as e:  # noqa
+                why.append("hash(%r) raised %s: %s" % (pr, type(e).__name__, e))
+                # which of the two?  a value still holding a list/dict -> not deep; else the dict conversion
+                if "unhashable" in str(e):
+                    deep = False
+                else:
+                    unordered = False
+                continue
+            top = [h for h in hashed if isinstance(h, tuple)]
+            if top:
+                packed = pr._pack()
+                if any(_has_container(h) for h in top):
+                    deep = False
+                if _has_ordered_dict_items(top[0], _strip_records(packed)):
+                    unordered = False
+        p1 = D(a="x", d=[{"a": 1, "b": [2, {"x": 1, "y": 2}]}], _generated=T0)
+        p2 = D(a="x", d=[{"b": [2, {"y": 2, "x": 1}], "a": 1}], _generated=T0)
+        try:
+            if (p1 == p2) and hash(p1) != hash(p2):
+                unordered = False
+                why.append("records that differ in dict key order only hash differently")
+        except Exception as e:  # noqa
+            unordered = False
+            why.append("hash raised %s" % e)
+        obs["hash_deep"], obs["hash_unordered"], obs["hash_why"] = deep, unordered, why
+        # ---------------- _pack(excluded_fields=...) leaves exactly the excluded slots out
+        slots = list(x.__slots__)
+        full = orig_rpack(x)
+        ok = isinstance(full, tuple) and len(full) == 2 and len(full[1]) == len(slots)
+        if not ok:
+            raise Unsupported("probe: Record._pack() is not (identifier, one value per slot)")
+        skip = True
+        for ex in (["a"], {"b", "_generated"}, ("l", "c", "_source", "_version"), ["nope"], slots):
+            got = orig_rpack(x, excluded_fields=ex)
+            want = tuple(v for k, v in zip(slots, full[1]) if k not in ex)
+            if not (got[0] == full[0] and len(got[1]) == len(want) and all(_same(g, w) for g, w in zip(got[1], want))):
+                skip = False
+        obs["skip"] = skip
+        # ---------------- GroupedRecord._pack
+        g = GroupedRecord("vf/g", [mk(), I(a="m", n=[3], _generated=T0)])
+        gp = orig_gpack if orig_gpack is not None else orig_rpack
+        try:
+            got = gp(g, excluded_fields={"a"})
+            obs["grp_accepts"] = True
+        except TypeError:
+            got = None
+            obs["grp_accepts"] = False
+        if got is not None:
+            want = (g.name, tuple(orig_rpack(m, excluded_fields={"a"}) for m in g.records))
+            plain = (g.name, tuple(orig_rpack(m) for m in g.records))
+            if _same(got, want):
+                obs["grp_forwards"] = True
+            elif _same(got, plain):
+                obs["grp_forwards"] = False
+            else:
+                raise Unsupported("probe: GroupedRecord._pack(excluded_fields={'a'}) is neither (name, members packed with it) nor (name, members packed without)")
+        else:
+            obs["grp_forwards"] = False
+        # ---------------- the isinstance guard
+        guard = True
+        for other in (5, None, "s", (1, 2), x._pack(), object(), _Duck(x)):
+            try:
+                if (x == other) is not False:
+                    guard = False
+            except Exception:  # noqa
+                guard = False
+        obs["guard"] = guard
+        # ---------------- descriptors: same identifier, same packed values, other descriptor
+        A = RecordDescriptor("vf/col", [("string", "a"), ("string", "bstringc")])
+        B = RecordDescriptor("vf/col", [("string", "astringb"), ("string", "c")])
+        A2 = RecordDescriptor("vf/col", [("string", "a"), ("string", "bstringc")])
+        ra, rb = A("v", "w", _generated=T0), B("v", "w", _generated=T0)
+        if A.identifier != B.identifier or not _same(orig_rpack(ra), orig_rpack(rb)):
+            obs["descs"] = None        # the collision no longer exists (another hash input): nothing to observe here
+        else:
+            obs["descs"] = ((ra == rb) is False and (rb == ra) is False
+                            and (GroupedRecord("g", [ra]) == GroupedRecord("g", [rb])) is False
+                            and (A == B) is False and (A != B) is True)
+        obs["descs_same"] = (A == A2) is True and (A != A2) is False and (ra == A2("v", "w", _generated=T0)) is True \
+            and (A == RecordDescriptor("vf/col", [("string", "a")])) is False and (A == RecordDescriptor("vf/colx", [("string", "a"), ("string", "bstringc")])) is False
+        # ---------------- the scoped override
+        fin_normal = fin_exc = True
+        for prior in (set(), {"vf_prior", "a"}):
+            base.set_ignored_fields_for_comparison(set(prior))
+            before = base.IGNORE_FIELDS_FOR_COMPARISON
+            with base.ignore_fields_for_comparison(["vf_in"]):
+                inside = set(base.IGNORE_FIELDS_FOR_COMPARISON)
+            if inside != {"vf_in"}:
+                raise Unsupported("probe: inside the scope the ignore set is %r" % (inside,))
+            if set(base.IGNORE_FIELDS_FOR_COMPARISON) != prior or set(before) != prior:
+                fin_normal = False
+            base.set_ignored_fields_for_comparison(set(prior))
+            try:
+                with base.ignore_fields_for_comparison(["vf_outer"]):
+                    try:
+                        with base.ignore_fields_for_comparison(("vf_in",)):
+                            raise KeyError("probe")
+                    except KeyError:
+                        pass
+                    if set(base.IGNORE_FIELDS_FOR_COMPARISON) != {"vf_outer"}:
+                        fin_exc = False
+                    raise KeyError("probe")
+            except KeyError:
+                pass
+            if set(base.IGNORE_FIELDS_FOR_COMPARISON) != prior:
+                fin_exc = False
+        if not fin_normal:
+            raise Unsupported("probe: the ignore set is not put back even on a normal exit of the scope")
+        obs["finally"] = fin_exc
+        return obs
+    finally:
+        if orig_rpack is not None:
+            base.Record._pack = orig_rpack
+        if orig_gpack is not None:
+            base.GroupedRecord._pack = orig_gpack
+        elif "_pack" in base.GroupedRecord.__dict__:
+            del base.GroupedRecord._pack
+        if had_hash:
+            base.hash = saved_hash
+        elif "hash" in base.__dict__:
+            del base.__dict__["hash"]
+        base.IGNORE_FIELDS_FOR_COMPARISON = saved_ignore
+
+
+def _strip_records(v):
+    """the packed value with nested record objects replaced by their own packed value (what ends up hashed)"""
+    from flow.record import Record
+    if isinstance(v, Record):
+        return _strip_records(v._pack())
+    if isinstance(v, tuple):
+        return tuple(_strip_records(x) for x in v)
+    if isinstance(v, list):
+        return [_strip_records(x) for x in v]
+    if isinstance(v, dict):
+        return {k: _strip_records(x) for k, x in v.items()}
+    return v
+
+
+def _same(a, b):
+    """structural sameness of packed values (no use of Record.__eq__)"""
+    from flow.record import Record
+    if isinstance(a, Record) or isinstance(b, Record):
+        return a is b
+    if type(a) in (tuple, list) or type(b) in (tuple, list):
+        return isinstance(a, (tuple, list)) and isinstance(b, (tuple, list)) and isinstance(a, list) == isinstance(b, list) \
+            and len(a) == len(b) and all(_same(p, q) for p, q in zip(a, b))
+    if isinstance(a, dict) and isinstance(b, dict):
+        return list(a) == list(b) and all(_same(a[k], b[k]) for k in a)
+    return type(a) is type(b) and (a is b or a == b)
+
+
+def _reconcile(name, observed, recogniser, notes):
+    """observed fact vs the source recogniser: contradiction -> fail closed; spelling not recognised -> note"""
+    try:
+        rec = recogniser()
+    except Unsupported as e:
+        notes.append("%s: source shape not recognised (%s); observed behaviour used" % (name, e))
+        return observed
+    if rec != observed:
+        raise Unsupported("%s: the source reads as %r but the probes observe %r" % (name, rec, observed))
+    return observed
+
+
 def gen_equality():
+    global BASE
     import flow.record.base as base
-    guard, eq_l, eq_r, eq_descs = eq_facts(base)
-    skip_first = pack_facts(base)
-    h_ign, h_deep, h_unordered = hash_facts(base)
-    g_acc, g_fwd = grouped_facts(base)
-    fin = ctx_facts(base)
+    BASE = base
+    notes = []
+    try:
+        obs = observe(base)
+    except Unsupported:
+        raise
+    except Exception as e:  # the probe machinery itself failed: fail closed
+        raise Unsupported("the behavioural probes could not be carried out: %s: %s" % (type(e).__name__, e))
+    for w in obs.get("hash_why", []):
+        notes.append("hash probe: " + w[:160])
+    if obs["hash_raised"]:
+        notes.append("hash probe: hash(record) raised " + obs["hash_raised"][:120])
+    rec_eq = {}
+
+    def eq_part(i):
+        def f():
+            if "v" not in rec_eq:
+                rec_eq["v"] = eq_facts(base)
+            return rec_eq["v"][i]
+        return f
+    rec_hash = {}
+
+    def hash_part(i):
+        def f():
+            if "v" not in rec_hash:
+                rec_hash["v"] = hash_facts(base)
+            return rec_hash["v"][i]
+        return f
+    rec_grp = {}
+
+    def grp_part(i):
+        def f():
+            if "v" not in rec_grp:
+                rec_grp["v"] = grouped_facts(base)
+            return rec_grp["v"][i]
+        return f
+    guard = _reconcile("__eq__ isinstance guard", obs["guard"], eq_part(0), notes)
+    eq_l = _reconcile("__eq__ ignore set to self._pack", obs["eq_ign_left"], eq_part(1), notes)
+    eq_r = _reconcile("__eq__ ignore set to other._pack", obs["eq_ign_right"], eq_part(2), notes)
+    if obs["descs"] is None:
+        eq_descs = eq_part(3)()          # the collision cannot be constructed any more: only the source can tell
+        notes.append("descriptor comparison: no identifier collision constructible; source shape used")
+    else:
+        eq_descs = _reconcile("__eq__ descriptor comparison", bool(obs["descs"]) and bool(obs["descs_same"]), eq_part(3), notes)
+    skip_first = _reconcile("_pack skips excluded slots", obs["skip"], lambda: pack_facts(base), notes)
+    h_ign = _reconcile("__hash__ ignore set to _pack", obs["hash_ign"], hash_part(0), notes)
+    h_deep = _reconcile("__hash__ deep freeze", obs["hash_deep"], hash_part(1), notes)
+    h_unordered = _reconcile("__hash__ dict -> frozenset", obs["hash_unordered"], hash_part(2), notes)
+    g_acc = _reconcile("GroupedRecord._pack accepts excluded_fields", obs["grp_accepts"], grp_part(0), notes)
+    g_fwd = _reconcile("GroupedRecord._pack forwards excluded_fields", obs["grp_forwards"], grp_part(1), notes)
+    fin = _reconcile("scope restored on exceptional exit", obs["finally"], lambda: ctx_facts(base), notes)
     ne_default, hashable = special_methods(base)
+    if obs["hash_raised"] and "unhashable type: '" in obs["hash_raised"] and "Record" in obs["hash_raised"]:
+        hashable = False
     reserved = list(base.RESERVED_FIELDS)
+    try:
+        envname = env_var(base)
+    except Unsupported as e:
+        envname = env_var_observed()
+        notes.append("environment variable: source shape not recognised (%s); observed in a fresh interpreter" % e)
     out = HEADER
     out += "From Coq Require Import List Bool String.\nImport ListNotations.\nFrom FR Require Import Equality.\nOpen Scope string_scope.\n\n"
-    out += "(* flow/record/base.py: Record.__eq__/_pack/__hash__, _hashable, GroupedRecord._pack, ignore_fields_for_comparison *)\n"
+    out += "(* flow/record/base.py: Record.__eq__/_pack/__hash__, _hashable, GroupedRecord._pack, ignore_fields_for_comparison;\n"
+    out += "   every boolean is what purpose-built probes OBSERVE the running code to do, cross-checked against the source shape *)\n"
+    for n in notes:
+        out += "(* note: %s *)\n" % n.replace("*)", "* )").replace("(*", "( *").replace('"', "'")
     out += "Definition facts_now : facts := {|\n"
     out += "  f_eq_ign_left := %s; f_eq_ign_right := %s; f_eq_isinstance_guard := %s; f_eq_descriptors := %s; f_ne_default := %s;\n" % (
         cbool(eq_l), cbool(eq_r), cbool(guard), cbool(eq_descs), cbool(ne_default))
@@ -515,7 +925,7 @@ def gen_equality():
         cbool(g_acc), cbool(g_fwd), cbool(fin), cbool(hashable))
     out += "  f_reserved := %s |}.\n\n" % clist([cstr(n) for n in reserved])
     out += "Definition hash_freezes_deep : bool := %s.\n" % cbool(h_deep)
-    out += "Definition ignore_env_var : string := %s.\n" % cstr(env_var(base))
+    out += "Definition ignore_env_var : string := %s.\n" % cstr(envname)
     write_if_changed(GEN / "Gen_equality.v", out)
 
 
